@@ -99,7 +99,10 @@ def fmtBits (x : Nat) : String := "#" ++ toString x
 /-- the codec of the real library over bit patterns -/
 def C : Codec Nat := regCodec fmtBits parseFloatBits
 
-/-- `yf`: negative zero comes back from yaml.v3 + cast as positive zero -/
+/-- the YAML layer with the sign of zero kept (notes/proposed_fix_C15.patch) -/
+def Kfixed : Consts Nat := { zero := 0, one := 0x3FF0000000000000 }
+
+/-- `yf`: negative zero comes back from yaml.v3 + cast as positive zero (the code as shipped) -/
 def K : Consts Nat := { zero := 0, one := 0x3FF0000000000000, yf := fun x => if x == 2 ^ 63 then 0 else x }
 
 /-! ### text ↔ token lines -/
@@ -277,12 +280,18 @@ def hIoYaml : Handler := fun j => do
   let wf := WFyaml C K src
   let mdl := decGenome C K (encGenome C src)
   let back := fldOpt o "back"
+  -- the YAML layer either loses the sign of a negative zero (as shipped) or keeps it (proposed patch): the model
+  -- follows whichever the code does; everything else must agree exactly
+  let mdl : Except Err (Genome Nat) := match mdl, decGenome C Kfixed (encGenome C src), back with
+    | .ok g, .ok g', some b =>
+      if (jsonDiff "" (stripOwn b) (jGenomeB g)).isSome && (jsonDiff "" (stripOwn b) (jGenomeB g')).isNone then Except.ok g' else Except.ok g
+    | m, _, _ => m
   let dcorr : Option String := match mdl, back with
     | .ok g, some b => jsonDiff "back vs model" (stripOwn b) (jGenomeB g)
     | .error e, none => if isNull o "readErr" then some s!"model error {errClass e}, Go no error" else none
     | .ok _, none => some "model decodes, Go failed"
     | .error e, some _ => some s!"model error {errClass e}, Go decodes"
-  let dwf : Option String := match mdl with
+  let dwf : Option String := match decGenome C K (encGenome C src) with
     | .ok g => if wf then jsonDiff "model roundtrip" (stripOwn sj) (jGenomeB g) else none
     | .error e => if wf then some s!"model round trip fails on a WFyaml genome: {errClass e}" else none
   let corr := dcorr.isNone && dwf.isNone
